@@ -61,8 +61,18 @@ def generate(rng, tier):
     el["req"]["tmean"] = 0          # from_data builds its own requantiser
     if rng.random() < 0.7:
         el["dig"]["tmean"] = 0
-    be = W.gen_backend(rng, ant, el)
-    if ant["kind"] == "single" and rng.random() < 0.2:
+    # SCALE: production-sized input blocks - more than 2**20 samples per antenna/polarisation component, loud enough
+    # that their sum of squares passes 2**31 (single-pass statistics in a narrow integer type only go wrong there)
+    heavy = rng.random() < (0.012 if tier == "quick" else 0.06)
+    if heavy:
+        for _ in range(6):
+            if ant["n_ant"] * ant["pols"] <= 2:
+                break
+            ant = W.gen_antenna(rng)
+        el["T"], el["B"], el["bits"] = rng.choice([1, 2]), 64, 8
+        el["req"]["fwhm"] = 32
+    be = W.gen_backend(rng, ant, el, wide=(2.5 * ant["n_ant"] * ant["pols"]) if heavy else False)
+    if ant["kind"] == "single" and rng.random() < 0.2 and not heavy:
         # one stream carries nothing but a pulsed tone: exactly zero for whole sub-blocks at a time
         sub = max(be["spb"] * el["B"] // max(be["num_subblocks"], 1), el["T"] * el["B"])
         st = ant["streams"][0][rng.randrange(ant["pols"])]
@@ -78,8 +88,12 @@ def generate(rng, tier):
            "ant_seed": rng.randrange(1 << 30)}
     if source == "ref" and rng.random() < 0.25:
         inp["stale"] = rng.choice(["bits", "bits", "chans", "pkt"])
+    if heavy:
+        inp.update(source="ref", blocks=rng.choice([1, 2]), std=rng.choice([46.0, 60.0]), npol4=False)
+        inp.pop("stale", None)
+        n_in = inp["blocks"]
     ops = []
-    for _ in range(rng.choice([1, 1, 2, 2])):
+    for _ in range(rng.choice([1, 1, 2, 2]) if not heavy else 1):
         r = rng.random()
         if r < 0.3:
             length = {"mode": "none"}
@@ -89,7 +103,7 @@ def generate(rng, tier):
             length = {"mode": "obs_length", "k": rng.choice([1, n_in, n_in + 2]), "half": rng.random() < 0.5}
         op = {"op": "inject", "length": length, "digitize": rng.random() < 0.6}
         if ops and rng.random() < 0.4:
-            op["set_subblocks"] = rng.randint(1, be["W"] + 2)
+            op["set_subblocks"] = rng.randint(1, be["W"] + 2) if not heavy else rng.choice([1, 2, 5])
         if rng.random() < 0.12:
             op["fault"] = rng.choice([{"kind": "enospc", "at": rng.randint(1, 60)}, {"kind": "source", "at": rng.randint(1, 4)},
                                       {"kind": "open", "at": rng.randint(1, 3)}])
@@ -99,7 +113,7 @@ def generate(rng, tier):
             "ant": ant, "el": el, "be": be, "input": inp,
             "dig_fwhms": ([[rng.choice([32, 12, 8, 20]) for _ in range(ant["pols"])] for _ in range(ant["n_ant"])]
                           if rng.random() < 0.35 else None),
-            "from_data": {"num_subblocks": rng.randint(1, be["W"] + 3), "estimate_seed": rng.choice([None, rng.randrange(1 << 30), rng.randrange(1 << 30), rng.randrange(1 << 30)]),
+            "from_data": {"num_subblocks": rng.randint(1, be["W"] + 3) if not heavy else rng.choice([1, 2, 3, 8, 32]), "estimate_seed": rng.choice([None, rng.randrange(1 << 30), rng.randrange(1 << 30), rng.randrange(1 << 30)]),
                           "factor": rng.choice([50, 200, 1000])},
             "ops": ops}
 
